@@ -15,6 +15,7 @@ package frugal
 
 import (
 	"bytes"
+	"context"
 	"encoding/binary"
 	"errors"
 	"fmt"
@@ -103,6 +104,29 @@ func (f *FProtocolFactory) GetProtocol(tr thrift.TTransport) *FProtocol {
 type FProtocol struct {
 	thrift.TProtocol
 	ephemeralProperties map[interface{}]interface{}
+	readDepth           int
+}
+
+// ReadStructBegin enters a struct of the message being read. Generated Read
+// methods recurse with the nesting of the data they are sent, so the nesting is
+// bounded by the limit thrift.Skip applies to data it skips: without a bound a
+// peer makes a service with a recursive type recurse once per byte or so of
+// the frame, until the goroutine stack limit ends the process.
+func (f *FProtocol) ReadStructBegin(ctx context.Context) (string, error) {
+	if f.readDepth >= thrift.DEFAULT_RECURSION_DEPTH {
+		return "", thrift.NewTProtocolExceptionWithType(thrift.DEPTH_LIMIT,
+			errors.New("frugal: struct nesting depth limit exceeded"))
+	}
+	f.readDepth++
+	return f.TProtocol.ReadStructBegin(ctx)
+}
+
+// ReadStructEnd leaves the struct entered by the matching ReadStructBegin.
+func (f *FProtocol) ReadStructEnd(ctx context.Context) error {
+	if f.readDepth > 0 {
+		f.readDepth--
+	}
+	return f.TProtocol.ReadStructEnd(ctx)
 }
 
 // WriteRequestHeader writes the request headers set on the given Context
@@ -114,6 +138,7 @@ func (f *FProtocol) WriteRequestHeader(ctx FContext) error {
 // ReadRequestHeader reads the request headers on the protocol into a
 // returned Context
 func (f *FProtocol) ReadRequestHeader() (FContext, error) {
+	f.readDepth = 0
 	headers, err := readHeader(f.Transport())
 	if err != nil {
 		return nil, err
@@ -161,6 +186,7 @@ func (f *FProtocol) WriteResponseHeader(ctx FContext) error {
 // ReadResponseHeader reads the response headers on the protocol into a
 // provided Context
 func (f *FProtocol) ReadResponseHeader(ctx FContext) error {
+	f.readDepth = 0
 	headers, err := readHeader(f.Transport())
 	if err != nil {
 		return err
